@@ -1097,6 +1097,7 @@ func ModelInput(res *Result) string {
 	d0 := append([]int(nil), c.D0...)
 	sort.Ints(d0)
 	mode := c.Mode
+	xn := ""
 	rootField := fmt.Sprint(root)
 	if c.Mode == "x" || c.Mode == "X" {
 		// ExtendedCopy(Graph): copyGraph runs from every root above the node, sharing tracker, proxy and
@@ -1113,6 +1114,7 @@ func ModelInput(res *Result) string {
 			k := len(res.Toks)
 			if res.Toks[k-3] == fmt.Sprintf("TB.%d", c.Root) && res.Toks[k-2] == fmt.Sprintf("TE.%d", c.Root) {
 				tr = strings.Join(append(append([]string(nil), res.Toks[:k-3]...), res.Toks[k-1]), ",")
+				xn = fmt.Sprintf("xn=%d ", c.Root) // ExtendedCopy: TagB/TagE of this node were taken out right before the final RT (Model/CopyExt.v puts them back)
 			}
 		}
 	}
@@ -1120,7 +1122,7 @@ func ModelInput(res *Result) string {
 		mode += "m"
 	}
 	mode += "/" + c.cbBits()
-	pre := linksField(g) + prologueField(res) + rflField(g) + refsField(res)
+	pre := linksField(g) + prologueField(res) + rflField(g) + refsField(res) + xn
 	if c.PreTag >= 0 && (c.Mode == "t" || c.Mode == "r") {
 		pre += fmt.Sprintf("pt=%d ", c.PreTag)
 	}
